@@ -21,6 +21,9 @@ pub struct SynthSpec {
     pub page: u64,
     pub off: u16,
     pub boolean: bool,
+    /// entry shape (see Arena::put_shaped): plain, jmp rel32 / jmp short forwarder, endbr64, indirect thunk
+    #[serde(default)]
+    pub shape: u8,
 }
 
 #[derive(Serialize, Deserialize, Clone, Debug, Hash, PartialEq, Eq)]
@@ -99,6 +102,12 @@ pub struct StepObs {
     pub value: Option<u64>,
     pub diff: Option<DiffObs>,
     pub bystanders: Vec<(String, u64)>,
+    /// Install: Some((site, n)) when the installed fake carries a call-count expectation
+    #[serde(default)]
+    pub times: Option<(u8, u8)>,
+    /// Call: the call panicked (over-called fake)
+    #[serde(default)]
+    pub call_panic: Option<String>,
 }
 
 #[derive(Serialize, Deserialize, Clone, Debug, Default)]
@@ -165,7 +174,10 @@ fn careful_call(t: &Target, expect_dest: Option<u64>, text: (u64, u64), pristine
         X86End::Arrived { at } => {
             so.arrived = Some(at);
             // run only if control lands in real code: this executable's text, libc, or an arena fake
-            so.value = Some((t.call)());
+            match std::panic::catch_unwind(std::panic::AssertUnwindSafe(|| (t.call)())) {
+                Ok(v) => so.value = Some(v),
+                Err(_) => so.call_panic = Some(crate::worker::last_panic()),
+            }
         }
         X86End::Ret { rax, .. } => {
             so.ret_rax = rax;
@@ -203,7 +215,9 @@ pub fn execute(c: &HistCase, opts: &Opts) -> HistObs {
             a.put_ret_id(addr + 16 * k, 0x6100 + (i as u32) * 16 + k as u32);
         }
         let id = if s.boolean { (i as u32) & 1 } else { 0x7A00 + i as u32 };
-        a.put_ret_id(addr, id);
+        // (the body of a forwarder lives at +48, i.e. in the slot of neighbour +3: a live,
+        // never-named function whose bytes the snapshot diff watches)
+        a.put_shaped(addr, id, s.shape);
         a.seal();
         o.arena_pages.push(base as u64);
         o.arena_pages.push((base + PAGE) as u64);
@@ -237,6 +251,7 @@ pub fn execute(c: &HistCase, opts: &Opts) -> HistObs {
             // model state only for choosing the decode expectation of calls
             let mut top: Vec<Option<(u64, Option<u64>)>> = vec![None; n];
             let mut kept: Vec<(u64, u64)> = vec![]; // live trampolines (addr,len)
+            let mut times_sites_used = [false; 4];
             for st in &life.steps {
                 let mut so = StepObs::default();
                 match st {
@@ -244,8 +259,19 @@ pub fn execute(c: &HistCase, opts: &Opts) -> HistObs {
                         let ti = *t as usize % n;
                         let tgt = &tg[ti];
                         let kinds = targets::legal_kinds(tgt.class);
-                        let kind = if kinds.contains(kind) { *kind } else { kinds[*k as usize % kinds.len()] };
-                        so.kind = format!("install/{kind:?}");
+                        let mut kind = if kinds.contains(kind) || (tgt.class == Class::U && matches!(kind, Kind::Times(_))) { *kind } else { kinds[*k as usize % kinds.len()] };
+                        // one counted installation per call site and lifetime (the counter is a
+                        // static of the site)
+                        if let Kind::Times(n) = kind {
+                            let site = (*k % 4) as usize;
+                            if times_sites_used[site] {
+                                kind = Kind::FakeMacro;
+                            } else {
+                                times_sites_used[site] = true;
+                                so.times = Some((site as u8, n));
+                            }
+                        }
+                        so.kind = format!("install/{}", match kind { Kind::Times(_) => "Times".to_string(), other => format!("{other:?}") });
                         so.t = ti;
                         so.before = crate::mem::read_direct(tgt.addr, 32);
                         crate::worker::phase("install");
@@ -388,7 +414,7 @@ pub fn execute(c: &HistCase, opts: &Opts) -> HistObs {
 // generator
 
 fn kind_strategy() -> impl Strategy<Value = Kind> {
-    prop_oneof![Just(Kind::Raw), Just(Kind::Closure), Just(Kind::FakeMacro), Just(Kind::Unchecked), Just(Kind::Bool(true)), Just(Kind::Bool(false))]
+    prop_oneof![2 => Just(Kind::Raw), 2 => Just(Kind::Closure), 2 => Just(Kind::FakeMacro), 2 => Just(Kind::Unchecked), 1 => Just(Kind::Bool(true)), 1 => Just(Kind::Bool(false)), 3 => (0u8..3).prop_map(Kind::Times)]
 }
 
 pub fn strategy(max_lifetimes: usize, max_steps: usize, synth_bias_last_slot: bool) -> impl Strategy<Value = HistCase> {
@@ -397,7 +423,8 @@ pub fn strategy(max_lifetimes: usize, max_steps: usize, synth_bias_last_slot: bo
     } else {
         prop_oneof![3 => 0u16..0x1000, 1 => Just(0xFF0u16)].boxed()
     };
-    let synth = prop::collection::vec((0u8..5, any::<u64>(), off, prop::bool::weighted(0.3)).prop_map(|(class, page, off, boolean)| SynthSpec { class, page, off, boolean }), 0..=3);
+    let shape = prop_oneof![3 => Just(0u8), 2 => Just(1u8), 1 => Just(2u8), 1 => Just(3u8), 1 => Just(4u8)];
+    let synth = prop::collection::vec((0u8..5, any::<u64>(), off, prop::bool::weighted(0.3), shape).prop_map(|(class, page, off, boolean, shape)| SynthSpec { class, page, off: if shape % 5 == 0 { off } else { off.min(0xF80) }, boolean, shape }), 0..=3);
     // few targets so that repetition on one target is common
     let step = prop_oneof![
         3 => (0u8..12, kind_strategy(), 0u8..4).prop_map(|(t, kind, k)| Step::Install { t, kind, k }),
